@@ -32,6 +32,9 @@ def stoks(s):
 
 
 # ------------------------------------------------------------------ implementation side
+PARENTS = {}     # class id -> parent class id (scenario-defined class hierarchies; default parent = abnf.parser.Rule)
+
+
 def impl_run(scenario, probes=(), classes=None):
     """executes the scenario on the real library; returns (statuses, dump, probe results)"""
     import abnf.parser as P
@@ -45,7 +48,8 @@ def impl_run(scenario, probes=(), classes=None):
         if k == 1:
             return P.ABNFGrammarRule
         if k not in classes:
-            classes[k] = type(f"C{k}", (P.Rule,), {})
+            par = PARENTS.get(k, PARENTS.get(str(k)))
+            classes[k] = type(f"C{k}", (cls_of(par) if par is not None else P.Rule,), {})
         return classes[k]
 
     status = []
@@ -531,7 +535,21 @@ def c10_scenario(seed, k):
     names = ["a", "b", "A", "tok", "Tok"]
     shadow = rng.random() < 0.25       # the known defect: a subclass defines a core / meta name
     shared = rng.random() < 0.25       # B imports from A, then A changes
+    hier = rng.choice([None, None, "B_under_A", "A_under_B", "sibling_under_C"])
+    parents = {}
+    if hier == "B_under_A":
+        parents = {101: 100}
+    elif hier == "A_under_B":
+        parents = {100: 101}
+    elif hier == "sibling_under_C":
+        parents = {100: 102, 101: 102}
     sc = []
+    if rng.random() < 0.3:
+        # the README idiom on the BASE class first (a fresh, non-core name)
+        sc.append(["create", 0, 'greeting = "hello"'])
+    if hier == "sibling_under_C" and rng.random() < 0.7:
+        sc.append(["create", 102, 'tok = "t"'])
+        sc.append(["create", 102, 'a = "in-c"'])
     # class B first: a small grammar, probes are taken before and after A's history
     sc.append(["create", B, 'b = 1*DIGIT "-" tok'])
     sc.append(["create", B, 'tok = ALPHA *(ALPHA / DIGIT)'])
@@ -564,7 +582,8 @@ def c10_scenario(seed, k):
              [(2, 0, "DIGIT", s, 0) for s in ["5", "x", "a"]] + [(2, 0, "ALPHA", s, 0) for s in ["5", "x"]] + \
              [(2, 1, "rule", s, 0) for s in ['a = "b"\r\n', "a = b c\r\n", "1 = b\r\n"]] + \
              ([(2, B, "shared", s, 0) for s in ["si", "sx", "s"]] if shared else [])
-    return {"seed": seed, "index": k, "scenario": sc, "mark": mark, "probes": probes, "shadow": shadow, "shared": shared}
+    return {"seed": seed, "index": k, "scenario": sc, "mark": mark, "probes": probes, "shadow": shadow, "shared": shared,
+            "parents": parents}
 
 
 def run_c10_case_in_child(c):
@@ -575,6 +594,7 @@ sys.path.insert(0, %r)
 import loader_x
 c = json.load(open(sys.argv[1]))
 sc, mark, probes = c["scenario"], c["mark"], [tuple(p) for p in c["probes"]]
+loader_x.PARENTS.update({int(k): v for k, v in (c.get("parents") or {}).items()})
 classes = {}
 st1, d1, p1 = loader_x.impl_run_persistent(classes, sc[:mark], probes)
 st2, d2, p2 = loader_x.impl_run_persistent(classes, sc[mark:], probes)
@@ -611,7 +631,7 @@ def run_c10(cases):
         for op in c["scenario"][c["mark"]:]:
             stats["ops"][op[0]] = stats["ops"].get(op[0], 0) + 1
         # (1) isolation on the implementation: B, core, meta unchanged (registry snapshot and probe behaviour)
-        pref = ["c101|", "core|", "meta|"]
+        pref = ["c101|", "c102|", "core|", "meta|"]
         strip = lambda dd: {k: {f: v[f] for f in ("name", "def", "excl", "flag")} for k, v in dd.items()}  # noqa: E731
         d = reg_x.diff(strip(r["d1"]), strip(r["d2"]), pref)
         pdiff = [(p, a, b) for p, a, b in zip(c["probes"], r["p1"], r["p2"]) if a != b]
@@ -643,7 +663,7 @@ def run_c10(cases):
         if stm != sti:
             mism.append({"kind": "model", "what": f"statuses differ: implementation {sti} model {stm}", "case": c})
             continue
-        full = reg_x.diff(r["d2"], dm or {}, ["c100|", "c101|", "core|", "meta|"])
+        full = reg_x.diff(r["d2"], dm or {}, ["c100|", "c101|", "c102|", "core|", "meta|"])
         norm = lambda xs: ["LOOP" if x in ("OOF", "REC") else x for x in xs]  # noqa: E731
         pm, r["p2"] = norm(pm), norm(r["p2"])
         if full or list(pm) != list(r["p2"]):
